@@ -18,6 +18,7 @@ mod tape;
 mod source;
 mod c06;
 mod c07;
+mod c07c;
 mod c08;
 mod c09;
 mod sio;
